@@ -264,7 +264,10 @@ class ProgressReporter(object):
         """Reset the value to 0 and the value max to a given value."""
         self._value = 0
         if value_max is not None:
-            self._value_max = value_max
+            self.value_max = value_max  # the setter re-arms when the maximum is raised
+        if self._value < self._value_max:
+            # The value is below the maximum again: a new completion can be announced.
+            self._has_completed = False
 
     @property
     def value(self):
